@@ -129,6 +129,15 @@ def oracle_c13(case, lo):
             while ("sq.%d" % k) in sq:
                 want.append(str(int.from_bytes(bytes(int(b) for b in sq["sq.%d" % k]), "big") % n))
                 k += 1
+            # ... and enough bytes are squeezed to reach every position: with k bytes only positions below 256^k come up
+            k = 0
+            while ("sq.%d" % k) in sq:
+                width = len(sq["sq.%d" % k])
+                if 256 ** width < n:
+                    fails.append("get_indices_from_sponge(n=%d, t=%d): position %d is derived from %d transcript byte(s); positions "
+                                 "from %d on can never be opened" % (n, t, k, width, 256 ** width))
+                    break
+                k += 1
             if want and len(want) == len(ix) and want != ix:
                 j = [a != b for a, b in zip(want, ix)].index(True)
                 fails.append("get_indices_from_sponge(n=%d): position %s is not the transcript bytes reduced mod n (%s): "
@@ -166,10 +175,16 @@ def oracle_c13(case, lo):
             n_ext = int(dims[2])
             want = []
             k = 0
+            narrow = None
             while ("sq.%d" % k) in sq:
                 want.append(str(int.from_bytes(bytes(int(b) for b in sq["sq.%d" % k]), "big") % n_ext))
+                if narrow is None and 256 ** len(sq["sq.%d" % k]) < n_ext:
+                    narrow = (k, len(sq["sq.%d" % k]))
                 k += 1
             got = [i for i in (lib_toks(lo, "leaf_idx") or []) if i != "-"]
+            if narrow is not None and len(want) == len(got):
+                fails.append("%s honest proof: position %d is derived from %d transcript byte(s) for a codeword of %d columns; the columns "
+                             "from %d on can never be opened" % (case.fields["scheme"][0], narrow[0], narrow[1], n_ext, 256 ** narrow[1]))
             if want and len(want) == len(got) and want != got:
                 bad = sum(1 for a, b in zip(want, got) if a != b)
                 fails.append("%s honest proof: %d of %d opened positions are not the transcript bytes reduced mod n (n=%d)"
@@ -662,9 +677,10 @@ def oracle_c16(case, lo):
 PROPS = {
     "C01": {
         "props_file": "props/C01.v",
-        "flows": [(gen_kzg.gen, "c01", 60, 600), (gen_pc.gen, "c01", 96, 960), (gen_mlpc.gen, "c01", 16, 160), (gen_lig.gen, "c01", 12, 120), (gen_lig.gen_multi, "c01", 8, 80)],
+        "flows": [(gen_kzg.gen, "c01", 60, 600), (gen_pc.gen, "c01", 96, 960), (gen_mlpc.gen, "c01", 16, 160), (gen_lig.gen, "c01", 12, 120), (gen_lig.gen_multi, "c01", 8, 80),
+                  (gen_c14.gen, "c14", 16, 160)],
         "filter": None,
-        "oracles": [oracle_c01_kzg, pc_honest, oracle_mlpc, oracle_lig, lambda c, lo: pc_mutations(c, lo, ("vperm",))],
+        "oracles": [oracle_c01_kzg, pc_honest, oracle_mlpc, oracle_lig, oracle_c14, lambda c, lo: pc_mutations(c, lo, ("vperm",))],
         "title": "Completeness",
     },
     "C16": {
